@@ -23,7 +23,7 @@ def FileTextWF (f : SlurmFile) : Prop :=
   (∀ x ∈ f.assertions.pas, PrefixAssertion.TextWF x) ∧ (∀ x ∈ f.assertions.bgpsec, BgpsecAssertion.TextWF x)
 
 theorem retype_pfx (p : Pfx) (h : PfxText.PfxWF p) :
-    retype (some .prefixK) (.str (PfxText.fmtPfx p)) = .pfx p := by
+    retype (.key .prefixK) (.str (PfxText.fmtPfx p)) = .pfx p := by
   simp [retype, PfxText.parsePfx_fmt false p h]
 
 theorem b64Url_urlsafe (b : List Nat) : (ProvMsg.b64Url b).any (fun c => c = 43 || c = 47) = false := by
@@ -52,10 +52,10 @@ theorem b64Url_len20 (b : List Nat) (h : b.length = 20) : (ProvMsg.b64Url b).len
     simp [ProvMsg.b64Url, Xml.b64Encode, List.filter, ne]
 
 theorem retype_ski (s : List Nat) (h : OctetsOk s ∧ s.length = 20) :
-    retype (some .ski) (.str (ProvMsg.b64Url s)) = .bytes s := by
+    retype (.key .ski) (.str (ProvMsg.b64Url s)) = .bytes s := by
   simp [retype, b64Url_len20 s h.2, unB64 s h.1]
 
-theorem retypeArr_map {α : Type} (g : α → Json) (k : Option Key) : ∀ (l : List α),
+theorem retypeArr_map {α : Type} (g : α → Json) (k : Ctx) : ∀ (l : List α),
     (∀ x ∈ l, retype k (erase (g x)) = g x) → retypeArr k (eraseArr (l.map g)) = l.map g := by
   intro l
   induction l with
@@ -64,7 +64,7 @@ theorem retypeArr_map {α : Type} (g : α → Json) (k : Option Key) : ∀ (l : 
     intro h
     simp only [List.map_cons, eraseArr, retypeArr, h x (by simp), ih (fun y hy => h y (by simp [hy]))]
 
-theorem PrefixFilter.retype_erase (f : PrefixFilter) (h : PrefixFilter.TextWF f) (k : Option Key) :
+theorem PrefixFilter.retype_erase (f : PrefixFilter) (h : PrefixFilter.TextWF f) (k : Ctx) :
     retype k (erase f.toJson) = f.toJson := by
   obtain ⟨p, a, c⟩ := f
   cases p with
@@ -75,7 +75,7 @@ theorem PrefixFilter.retype_erase (f : PrefixFilter) (h : PrefixFilter.TextWF f)
     cases a <;> cases c <;> simp [PrefixFilter.toJson, optField, erase, eraseObj, retype, retypeObj] <;>
       simpa [retype] using hp
 
-theorem BgpsecFilter.retype_erase (f : BgpsecFilter) (h : BgpsecFilter.TextWF f) (k : Option Key) :
+theorem BgpsecFilter.retype_erase (f : BgpsecFilter) (h : BgpsecFilter.TextWF f) (k : Ctx) :
     retype k (erase f.toJson) = f.toJson := by
   obtain ⟨s, a, c⟩ := f
   cases s with
@@ -86,19 +86,19 @@ theorem BgpsecFilter.retype_erase (f : BgpsecFilter) (h : BgpsecFilter.TextWF f)
     have hs := unB64 s (h s rfl).1
     cases a <;> cases c <;> simp [BgpsecFilter.toJson, optField, erase, eraseObj, retype, retypeObj, hs, hl]
 
-theorem AspaFilter.retype_erase (f : AspaFilter) (k : Option Key) :
+theorem AspaFilter.retype_erase (f : AspaFilter) (k : Ctx) :
     retype k (erase f.toJson) = f.toJson := by
   obtain ⟨a, c⟩ := f
   cases a <;> cases c <;> simp [AspaFilter.toJson, optField, erase, eraseObj, retype, retypeObj]
 
-theorem PrefixAssertion.retype_erase (a : PrefixAssertion) (h : PrefixAssertion.TextWF a) (k : Option Key) :
+theorem PrefixAssertion.retype_erase (a : PrefixAssertion) (h : PrefixAssertion.TextWF a) (k : Ctx) :
     retype k (erase a.toJson) = a.toJson := by
   obtain ⟨⟨p, ml⟩, asn, c⟩ := a
   have hp := PfxText.parsePfx_fmt false p h
   cases ml <;> cases c <;>
     simp [PrefixAssertion.toJson, optField, erase, eraseObj, retype, retypeObj, hp]
 
-theorem BgpsecAssertion.retype_erase (a : BgpsecAssertion) (h : BgpsecAssertion.TextWF a) (k : Option Key) :
+theorem BgpsecAssertion.retype_erase (a : BgpsecAssertion) (h : BgpsecAssertion.TextWF a) (k : Ctx) :
     retype k (erase a.toJson) = a.toJson := by
   obtain ⟨asn, s, key, c⟩ := a
   have hl := b64Url_len20 s h.1.2
@@ -106,28 +106,28 @@ theorem BgpsecAssertion.retype_erase (a : BgpsecAssertion) (h : BgpsecAssertion.
   have h2 := unB64 key h.2
   cases c <;> simp [BgpsecAssertion.toJson, optField, erase, eraseObj, retype, retypeObj, h1, h2, hl]
 
-theorem AspaAssertion.retype_erase (a : AspaAssertion) (k : Option Key) :
+theorem AspaAssertion.retype_erase (a : AspaAssertion) (k : Ctx) :
     retype k (erase a.toJson) = a.toJson := by
   obtain ⟨cu, ps, c⟩ := a
-  have e := retypeArr_map Json.num (some Key.providerAsns) ps (fun x _ => by simp [erase, retype])
+  have e := retypeArr_map Json.num (Ctx.elem Key.providerAsns) ps (fun x _ => by simp [erase, retype])
   cases c <;> simp [AspaAssertion.toJson, optField, erase, eraseObj, retype, retypeObj, e]
 
 theorem file_retype_erase (f : SlurmFile) (h : FileTextWF f) :
-    retype none (erase f.toJson) = f.toJson := by
+    retype .top (erase f.toJson) = f.toJson := by
   obtain ⟨v, ⟨pfs, bgf, af⟩, ⟨pas, bga, aa⟩⟩ := f
   obtain ⟨h1, h2, h3, h4⟩ := h
   simp only at h1 h2 h3 h4
-  have e1 := retypeArr_map PrefixFilter.toJson (some Key.prefixFilters) pfs
+  have e1 := retypeArr_map PrefixFilter.toJson (Ctx.elem Key.prefixFilters) pfs
     (fun x hx => PrefixFilter.retype_erase x (h1 x hx) _)
-  have e2 := retypeArr_map BgpsecFilter.toJson (some Key.bgpsecFilters) bgf
+  have e2 := retypeArr_map BgpsecFilter.toJson (Ctx.elem Key.bgpsecFilters) bgf
     (fun x hx => BgpsecFilter.retype_erase x (h2 x hx) _)
-  have e4 := retypeArr_map PrefixAssertion.toJson (some Key.prefixAssertions) pas
+  have e4 := retypeArr_map PrefixAssertion.toJson (Ctx.elem Key.prefixAssertions) pas
     (fun x hx => PrefixAssertion.retype_erase x (h3 x hx) _)
-  have e5 := retypeArr_map BgpsecAssertion.toJson (some Key.bgpsecAssertions) bga
+  have e5 := retypeArr_map BgpsecAssertion.toJson (Ctx.elem Key.bgpsecAssertions) bga
     (fun x hx => BgpsecAssertion.retype_erase x (h4 x hx) _)
-  have e3 : ∀ l : List AspaFilter, retypeArr (some Key.aspaFilters) (eraseArr (l.map AspaFilter.toJson)) =
+  have e3 : ∀ l : List AspaFilter, retypeArr (Ctx.elem Key.aspaFilters) (eraseArr (l.map AspaFilter.toJson)) =
       l.map AspaFilter.toJson := fun l => retypeArr_map _ _ l (fun x _ => AspaFilter.retype_erase x _)
-  have e6 : ∀ l : List AspaAssertion, retypeArr (some Key.aspaAssertions) (eraseArr (l.map AspaAssertion.toJson)) =
+  have e6 : ∀ l : List AspaAssertion, retypeArr (Ctx.elem Key.aspaAssertions) (eraseArr (l.map AspaAssertion.toJson)) =
       l.map AspaAssertion.toJson := fun l => retypeArr_map _ _ l (fun x _ => AspaAssertion.retype_erase x _)
   cases af <;> cases aa <;>
     simp [SlurmFile.toJson, Filters.toJson, Assertions.toJson, optArr, erase, eraseObj, retype, retypeObj,
